@@ -333,7 +333,15 @@ func c16Receiver(c *core.Ctx, rrc *ssa.Function) {
 			}
 		}
 	}
-	if len(cells) < 2 {
+	if len(cells) == 1 {
+		// one receive site visited once per member: it lies on a cycle of the CFG
+		st := cells[0].at
+		isSame := func(in ssa.Instruction) bool { return in == st }
+		if _, again := facts.ReachesWithout(st, isSame, nil, nil); !again {
+			c.Fail("C16.R3", "runReadConcurrent/receives", rrc.Pos(), "only 1 receive of member results found, and not in a loop: the second member's answer is never awaited")
+			return
+		}
+	} else if len(cells) < 2 {
 		c.Fail("C16.R3", "runReadConcurrent/receives", rrc.Pos(), sprintf("only %d receives of member results found", len(cells)))
 		return
 	}
@@ -348,7 +356,23 @@ func c16Receiver(c *core.Ctx, rrc *ssa.Function) {
 			return false
 		}
 		_, f, _ := facts.FieldOf(fa)
-		return f == name
+		if f == name {
+			return true
+		}
+		// the carrier is a struct local to the function: its fields are told apart
+		// by type (the cancel function is the func() field, the answer the other one)
+		if pt, ok := fa.X.Type().Underlying().(*types.Pointer); ok {
+			if st, ok := pt.Elem().Underlying().(*types.Struct); ok && st.NumFields() == 2 && fa.Field < st.NumFields() {
+				_, isFunc := st.Field(fa.Field).Type().Underlying().(*types.Signature)
+				if name == "cancel" {
+					return isFunc
+				}
+				if name == "r" {
+					return !isFunc
+				}
+			}
+		}
+		return false
 	}
 	for i, rc := range cells {
 		key := sprintf("runReadConcurrent/received#%d", i+1)
@@ -395,7 +419,17 @@ func c16Receiver(c *core.Ctx, rrc *ssa.Function) {
 	immediate := false
 	for _, r := range returnsOf(rrc) {
 		if len(r.Results) == 2 && fieldOfCell(facts.RetVal(r, 0), first.cell, "r") {
-			for _, cd := range facts.CondsAt(r.Block()) {
+			conds := facts.CondsAt(r.Block())
+			// `if last || r.error() == nil { return … }`: one of the edges into the
+			// returning block is the success test
+			for _, p := range r.Block().Preds {
+				for idx, sb := range p.Succs {
+					if sb == r.Block() {
+						conds = append(conds, facts.EdgeConds(p, idx)...)
+					}
+				}
+			}
+			for _, cd := range conds {
 				if x, isNil, ok := facts.NilCheck(cd); ok && isNil {
 					if call, isCall := facts.Resolve(x).(*ssa.Call); isCall && call.Call.IsInvoke() && methName(call.Call.Method.Name()) == "error" {
 						immediate = true
